@@ -50,6 +50,7 @@ PURE_EXT = [
     r'^core::panicking::', r'^std::rt::', r'^core::fmt::', r'^std::fmt::', r'^core::slice::<impl \[T\]>::(len|is_empty)$',
     r'std::convert::AsRef.*::as_ref$', r'std::ops::Deref.*::deref$', r'std::convert::From.*::from$', r'std::convert::Into.*::into$',
     r'std::ops::Try.*::branch$', r'std::ops::FromResidual.*::from_residual$', r'^std::intrinsics::', r'^core::intrinsics::',
+    r'^std::ops::Range(Inclusive)?::<Idx>::(new|contains|start|end|is_empty)$',
 ]
 PURE_EXT_RE = [re.compile(x) for x in PURE_EXT]
 
